@@ -65,24 +65,83 @@ Theorem C07_host_only_when_asked : forall wire o q u,
 Proof. exact host_only_when_asked. Qed.
 Print Assumptions C07_host_only_when_asked.
 
-(* strip/prepend keep the client's percent-encoding: REFUTED on the code as it is ... *)
-Theorem C07_strip_keeps_encoding_refuted :
+(* strip/prepend keep the client's percent-encoding.  Before fix 402775d they did not (the
+   director left the client's RawPath in place and net/url re-encoded the decoded path) ... *)
+Theorem C07_strip_keeps_encoding_unrepaired :
+  fwd_target_unrepaired (mk_opts "/strip" "") (parsed_of "/strip/a%2Fb") = bs "/a/b"
+  /\ fwd_target_unrepaired (mk_opts "" "/pre") (parsed_of "/a%2Fb") = bs "/pre/a/b"
+  /\ fwd_target_unrepaired (mk_opts "/strip" "") (parsed_of "/strip/%41") = bs "/A".
+Proof. exact strip_keeps_encoding_unrepaired. Qed.
+Print Assumptions C07_strip_keeps_encoding_unrepaired.
+
+(* ... the code as it is keeps it on the same requests ... *)
+Theorem C07_strip_keeps_encoding_repaired :
+  (exists u, forward false (mk_opts "/strip" "") (mk_req "/strip/a%2Fb") = Ok u /\ up_target u = bs "/a%2Fb")
+  /\ (exists u, forward false (mk_opts "" "/pre") (mk_req "/a%2Fb") = Ok u /\ up_target u = bs "/pre/a%2Fb")
+  /\ (exists u, forward false (mk_opts "/strip" "") (mk_req "/strip/%41") = Ok u /\ up_target u = bs "/%41")
+  /\ (exists u, forward false (mk_opts "/strip" "pre") (mk_req "/strip/a%2Fb?q=%2F") = Ok u
+                /\ up_target u = bs "/pre/a%2Fb?q=%2F").
+Proof. exact strip_keeps_encoding_repaired. Qed.
+Print Assumptions C07_strip_keeps_encoding_repaired.
+
+(* ... and in general: raw path valid-encoded, literally starting with a plain strip prefix, cut
+   where a '/' can be put in front consistently ([slash_ok]: e.g. the remainder starts with '/'
+   or is empty), plain prepend: the upstream path is the absolute prepend followed by the
+   client's raw remainder, byte for byte *)
+Theorem C07_strip_prepend_keep_raw : forall wire o q u rest,
+  all_lt_256 (rq_target q) = true ->
+  forward wire o q = Ok u ->
+  raw_path_of (rq_target q) = ro_strip o ++ rest ->
+  nonempty (ro_strip o) = true -> plain (ro_strip o) = true -> slash_ok rest = true ->
+  valid_encoded (raw_path_of (rq_target q)) = true ->
+  (ro_prepend o = [] \/ plain (ro_prepend o) = true) ->
+  up_target u = (if nonempty (ro_prepend o) then slash_fix (ro_prepend o ++ slash_fix rest) else slash_fix rest)
+                ++ spec_query o (rq_target q).
+Proof. exact strip_prepend_keep_raw. Qed.
+Print Assumptions C07_strip_prepend_keep_raw.
+
+Theorem C07_slash_ok_slash : forall rest d,
+  unescape rest = Ok d -> has_prefix rest [47] = true -> slash_ok rest = true.
+Proof. exact slash_ok_slash. Qed.
+
+Theorem C07_keep_raw_nonvacuous :
+  let o := mk_opts "/strip" "/pre" in let q := mk_req "/strip/a%2Fb/%41" in
+  raw_path_of (rq_target q) = ro_strip o ++ bs "/a%2Fb/%41"
+  /\ nonempty (ro_strip o) = true /\ plain (ro_strip o) = true /\ slash_ok (bs "/a%2Fb/%41") = true
+  /\ valid_encoded (raw_path_of (rq_target q)) = true /\ plain (ro_prepend o) = true
+  /\ canonical_raw (raw_path_of (rq_target q)) = false
+  /\ exists u, forward false o q = Ok u /\ up_target u = bs "/pre/a%2Fb/%41".
+Proof. exact keep_raw_nonvacuous. Qed.
+
+(* what still loses the client's encoding (region 1 as narrowed by the fix): the strip prefix itself
+   percent-encoded in the request, ... *)
+Theorem C07_strip_encoded_prefix_refuted :
   exists o q u, forward false o q = Ok u
     /\ region_strip_encoding o (rq_target q) = true
     /\ spec_target o (rq_target q) = bs "/a%2Fb"
     /\ up_target u = bs "/a/b".
-Proof. exact strip_keeps_encoding_refuted. Qed.
-Print Assumptions C07_strip_keeps_encoding_refuted.
+Proof. exact strip_encoded_prefix_refuted. Qed.
+Print Assumptions C07_strip_encoded_prefix_refuted.
 
-Theorem C07_prepend_keeps_encoding_refuted :
+(* ... a strip prefix cutting in front of an encoded '/', ... *)
+Theorem C07_strip_before_encoded_slash_refuted :
   exists o q u, forward false o q = Ok u
     /\ region_strip_encoding o (rq_target q) = true
-    /\ spec_target o (rq_target q) = bs "/pre/a%2Fb"
-    /\ up_target u = bs "/pre/a/b".
-Proof. exact prepend_keeps_encoding_refuted. Qed.
-Print Assumptions C07_prepend_keeps_encoding_refuted.
+    /\ spec_target o (rq_target q) = bs "/%2Fb/%41"
+    /\ up_target u = bs "/b/A".
+Proof. exact strip_before_encoded_slash_refuted. Qed.
+Print Assumptions C07_strip_before_encoded_slash_refuted.
 
-(* ... and, without any option, for a path holding a byte Go's validEncoded rejects *)
+(* ... a prepend option with a byte that needs escaping *)
+Theorem C07_prepend_escaped_byte_refuted :
+  exists o q u, forward false o q = Ok u
+    /\ region_strip_encoding o (rq_target q) = true
+    /\ spec_target o (rq_target q) = bs "/a%20b/x%2Fy"
+    /\ up_target u = bs "/a%20b/x/y".
+Proof. exact prepend_escaped_byte_refuted. Qed.
+Print Assumptions C07_prepend_escaped_byte_refuted.
+
+(* and, with or without options, a path holding a byte Go's validEncoded rejects *)
 Theorem C07_invalid_byte_reencoded_refuted :
   exists o q u, forward false o q = Ok u
     /\ region_invalid_byte o (rq_target q) = true
@@ -143,15 +202,30 @@ Theorem C07_headers_identity : forall o q u k,
 Proof. exact headers_identity. Qed.
 Print Assumptions C07_headers_identity.
 
-(* fabio's transport (compression left enabled) adds an Accept-Encoding of its own *)
-Theorem C07_gzip_added_refuted :
-  exists o q u, forward true o q = Ok u
-    /\ region_gzip_added q = true
-    /\ hvalues (rq_headers q) k_accept_encoding = []
-    /\ hvalues (up_headers u) k_accept_encoding = [bs "gzip"]
-    /\ spec_forward o q u = false.
-Proof. exact gzip_added_refuted. Qed.
-Print Assumptions C07_gzip_added_refuted.
+(* over real sockets (fabio's transport, compression disabled since fix 5e1efca) nothing is
+   added either: every non-hop header but User-Agent (first value only) is the client's *)
+Theorem C07_headers_identity_wire : forall o q u k,
+  forward true o q = Ok u ->
+  is_hop (rq_headers q) k = false -> k <> k_user_agent ->
+  hvalues (up_headers u) k = hvalues (rq_headers q) k.
+Proof. exact headers_identity_wire. Qed.
+Print Assumptions C07_headers_identity_wire.
+
+(* before 5e1efca the transport added Accept-Encoding: gzip of its own *)
+Theorem C07_gzip_added_unrepaired :
+  let q := mk_req "/x" in let h := fwd_headers (rq_headers q) in
+  region_gzip_added q = true
+  /\ hvalues (rq_headers q) k_accept_encoding = []
+  /\ hvalues (wire_headers_unrepaired (rq_method q) h) k_accept_encoding = [bs "gzip"]
+  /\ hvalues (wire_headers (rq_method q) h) k_accept_encoding = [].
+Proof. exact gzip_added_unrepaired. Qed.
+Print Assumptions C07_gzip_added_unrepaired.
+
+Theorem C07_no_gzip_added_example :
+  exists u, forward true (mk_opts "" "") (mk_req "/x") = Ok u
+    /\ hvalues (up_headers u) k_accept_encoding = []
+    /\ spec_forward (mk_opts "" "") (mk_req "/x") u = true.
+Proof. exact no_gzip_added_example. Qed.
 
 (* ---- the response ---- *)
 Theorem C07_response_identity : forall r,
